@@ -155,14 +155,22 @@ Section Repeated.
     cut_rows (length vs) vs.
 
   (* the logical content: each row read through rows *)
-  Definition rcol_row (c : rcol) (i : nat) : list rval :=
-    let r := nth i (rrows c) (O, O) in
+  Definition rcol_entry_row (c : rcol) (r : nat * nat) : list rval :=
     let len := row_length (rreps c) (fst r) in
     rpage_values (rmaxdef c) (slice (rreps c) (fst r) len) (slice (rdefs c) (fst r) len)
                  (skipn (snd r) (rbase c)).
 
-  Definition rcol_rows (c : rcol) : list (list rval) :=
-    map (rcol_row c) (seq 0 (length (rrows c))).
+  Definition rcol_rows (c : rcol) : list (list rval) := map (rcol_entry_row c) (rrows c).
+
+  (* compare.go compareRowsFuncOfColumnValues, the loop over the values of one
+     sorting column: first pair that differs, then the shorter sequence first *)
+  Fixpoint cmp_values (c : option V -> option V -> Z) (a b : list (option V)) : Z :=
+    match a, b with
+    | x :: a', y :: b' => let r := c x y in if Z.eqb r 0 then cmp_values c a' b' else r
+    | _ :: _, [] => 1%Z
+    | [], _ :: _ => (-1)%Z
+    | [], [] => 0%Z
+    end.
 
   Inductive rop := RWrite (vs : list rval) | RSwap (i j : nat) | RPage.
 
@@ -182,8 +190,11 @@ Arguments RPage {V}.
 (** Entry point of the oracle for one repeated column: Buffer.configure hands
     the column the null ordering [xorb nf desc] and sets [descending]. *)
 Definition c10_rep (md : N) (nf desc : bool) (ops : list (rop sval))
-  : list (list (rval sval)) * list (list (rval sval)) * list (list bool) :=
+  : list (list (rval sval)) * list (list (rval sval)) * list (list bool) * list (list Z) :=
   let c := fold_left (rcol_apply sval) ops (new_rcol sval md (xorb nf desc) desc) in
   let n := length (rrows sval c) in
-  (rcol_rows sval c, rcol_page_rows sval c,
-   map (fun i => map (fun j => rcol_less sval lt_sval c i j) (seq 0 n)) (seq 0 n)).
+  let rs := rcol_rows sval c in
+  let vals := map (map (rv_val sval)) rs in
+  (rs, rcol_page_rows sval c,
+   map (fun i => map (fun j => rcol_less sval lt_sval c i j) (seq 0 n)) (seq 0 n),
+   map (fun a => map (fun b => cmp_values sval (cmp_col sval cmp_sval true desc nf) a b) vals) vals).
